@@ -1058,6 +1058,38 @@ def L_variant(fn, variant, of_call=None, proj=None):
     return pred
 
 
+def L_opt(fn, some, root_pred):
+    """Edge predicate, shape-independent: taking the edge implies that an Option whose value satisfies root_pred(roots)
+    is Some (some=True) / is None (some=False).  Recognised tests: is_some() / is_none() / is_some_and(..) / is_none_or(..),
+    their negations, and a discriminant switch (`match`, `if let`, `let else`, `?`) on the place itself."""
+
+    def recv_ok(site):
+        return bool(site.args) and root_pred(fn.roots(site.args[0]))
+
+    def pred(lab):
+        if lab.kind == "bool" and lab.value is not None and lab.cond.kind == "call":
+            c = lab.cond.site
+            v = lab.value
+            if c.matches(r"Option.*::is_some$") and recv_ok(c):
+                return v is some
+            if c.matches(r"Option.*::is_none$") and recv_ok(c):
+                return v is (not some)
+            if c.matches(r"Option.*::is_some_and$") and recv_ok(c):
+                return some and v is True
+            if c.matches(r"Option.*::is_none_or$") and recv_ok(c):
+                return some and v is False
+            return False
+        if lab.kind == "variant" and (lab.adt or "").endswith("option::Option"):
+            want = {"Some"} if some else {"None"}
+            if lab.variants != want:
+                return False
+            base = {"l": lab.place["l"], "p": [e for e in lab.place["p"]]}
+            return root_pred(fn.roots(base))
+        return False
+
+    return pred
+
+
 def root_has(roots, kind=None, contains=None):
     for r in roots:
         if kind is not None and r.kind != kind:
